@@ -1,16 +1,22 @@
 """
 Independent oracle for the vacancy-mediated coefficients: the exact one-solute / one-vacancy Markov chain on a
-periodic n x n (x n) supercell, solved densely/sparsely in floats, for several n, extrapolated to n -> infinity.
+periodic n x n (x n) supercell, for several n, extrapolated to n -> infinity.
 
 Nothing here uses vector stars, Green functions or the Dyson equation: states are (solute site in cell 0,
 vacancy site, vacancy cell mod n); rates come from the same thermodynamic data through the calculator's own
 classification of transitions (om1_jn / om2_jn classes), which C26 checks separately.
 
     L_ab = (1/N) [ 1/2 sum_{x,y} p_x w_xy d^a_xy d^b_xy  -  sum_x eta^a_x B^b_x ],   W eta^a = -B^a
-with d^s (solute displacement) and d^v (vacancy displacement) per transition; L1vv = Lvv(pair) - (n^d N - 1) L0vv.
+with d^s (solute displacement) and d^v (vacancy displacement) per transition; L1vv = Lvv(pair) - (n^d N - 1) L0vv
+(the calculator's convention: cv counts all vacancies, the solute blocks one of the n^d N sites).
 Use odd n so that the centred representative of a cell vector is unambiguous.
+
+All thermodynamic input enters through "activities" a = exp(-beta F) (floats or exact Fractions): the same builder
+produces the float chain (solved sparsely here) and the exact rational chain (solved by the Lean model Drive/Chain.lean,
+whose results are theorems' subjects: OnsagerProofs/Chain.lean).
 """
 import itertools
+from fractions import Fraction
 import numpy as np
 import scipy.sparse as sp
 import scipy.sparse.linalg as spla
@@ -20,17 +26,29 @@ def _centered(R, n):
     return ((np.asarray(R) + n // 2) % n) - n // 2
 
 
-def chain_L(calc, betafree, n):
-    """Returns (L0vv, Lss, Lsv, L1vv) of the periodic chain with n cells per direction."""
+def activities_from_betafree(betafree):
+    return tuple(np.exp(-np.asarray(x, dtype=float)) for x in betafree)
+
+
+def activities_exact(q, d):
+    """d: dict of preX (Fractions) and eneX (ints, in units of ln q); returns exact activities pre * q^-ene."""
+    def act(pre, ene):
+        return [Fraction(p) * (Fraction(q) ** (-int(e))) for p, e in zip(pre, ene)]
+    return (act(d['preV'], d['eneV']), act(d['preS'], d['eneS']), act(d['preSV'], d['eneSV']),
+            act(d['preT0'], d['eneT0']), act(d['preT1'], d['eneT1']), act(d['preT2'], d['eneT2']))
+
+
+def chain_transitions(calc, act, n):
+    """-> dict(nst, alive, trans=[(x, y, r, ds, dv)], lone=[(i, j, r, dx)], N, ncell); numeric type follows `act`."""
     from onsager import crystalStars as stars
-    bFV, bFS, bFSV, bFT0, bFT1, bFT2 = [np.asarray(x, dtype=float) for x in betafree]
+    aV, aS, aSV, aT0, aT1, aT2 = act
     crys, chem, dim, N = calc.crys, calc.chem, calc.crys.dim, calc.N
-    inv = calc.invmap
+    inv = [int(w) for w in calc.invmap]
     basis = crys.basis[chem]
-    # probabilities as the calculator normalises them
-    pV = np.array([np.exp(min(bFV) - bFV[inv[i]]) for i in range(N)]); pV *= N / pV.sum()
-    pS = np.array([np.exp(min(bFS) - bFS[inv[i]]) for i in range(N)]); pS *= N / pS.sum()
-    # vacancy jumps: (i, j, R, dx, jt)
+    one = aV[0] / aV[0]
+    sV = sum(aV[inv[i]] for i in range(N)); sS = sum(aS[inv[i]] for i in range(N))
+    pV = [aV[inv[i]] * N / sV for i in range(N)]
+    pS = [aS[inv[i]] * N / sS for i in range(N)]
     jumps = []
     for jt, cls in enumerate(calc.om0_jn):
         for (i, j), dx in cls:
@@ -43,14 +61,7 @@ def chain_L(calc, betafree, n):
     for c, cls in enumerate(calc.om2_jn):
         for (si, sf), dx in cls: om2[(si, sf)] = c
     kin, thermo = calc.kinetic, calc.thermo
-    # lone vacancy (reference) per unit cell
-    L0 = np.zeros((dim, dim)); W0 = np.zeros((N, N)); B0 = np.zeros((N, dim))
-    for (i, j, R, dx, jt) in jumps:
-        r = pV[i] * np.exp(-bFT0[jt] + bFV[inv[i]])
-        L0 += 0.5 * r * np.outer(dx, dx); W0[i, j] += r; W0[i, i] -= r; B0[i] += r * dx
-    eta0 = -np.dot(np.linalg.pinv(W0), B0)
-    L0vv = (L0 - np.dot(eta0.T, B0)) / N
-    # pair chain
+    lone = [(i, j, pV[i] * aT0[jt] / aV[inv[i]], dx) for (i, j, R, dx, jt) in jumps]
     cells = list(itertools.product(range(n), repeat=dim))
     cellidx = {c: k for k, c in enumerate(cells)}
     ncell = len(cells)
@@ -59,30 +70,26 @@ def chain_L(calc, betafree, n):
         return (s * N + v) * ncell + cellidx[c]
 
     nst = N * N * ncell
+    zero = tuple([0] * dim)
     alive = np.ones(nst, dtype=bool)
-    for s in range(N): alive[sid(s, s, tuple([0] * dim))] = False
-    P = np.zeros(nst)
-    bF = np.zeros(nst)
-    PSof = {}
+    for s in range(N): alive[sid(s, s, zero)] = False
+    P, A, PSof = {}, {}, {}
     for s in range(N):
         for v in range(N):
             for c in cells:
                 x = sid(s, v, c)
                 if not alive[x]: continue
-                R = _centered(c, n)
-                PS = stars.PairState.fromcrys_latt(crys, chem, (s, v), R)
+                PS = stars.PairState.fromcrys_latt(crys, chem, (s, v), _centered(c, n))
                 PSof[x] = PS
-                b = bFS[inv[s]] + bFV[inv[v]]
+                a = aS[inv[s]] * aV[inv[v]]          # exp(-beta F) of the state
                 p = pS[s] * pV[v]
                 ti = thermo.stateindex(PS)
                 if ti is not None:
                     st = thermo.index[ti]
-                    b += bFSV[st]; p *= np.exp(-bFSV[st])
-                P[x], bF[x] = p, b
-    rows, cols, vals = [], [], []
-    diag = np.zeros(nst)
-    Bs = np.zeros((nst, dim)); Bv = np.zeros((nst, dim))
-    Dss = np.zeros((dim, dim)); Dsv = np.zeros((dim, dim)); Dvv = np.zeros((dim, dim))
+                    a = a * aSV[st]; p = p * aSV[st]
+                P[x], A[x] = p, a
+    trans = []
+    zvec = np.zeros(dim)
     for s in range(N):
         for v in range(N):
             for c in cells:
@@ -92,59 +99,181 @@ def chain_L(calc, betafree, n):
                 kx = kin.stateindex(PS)
                 for (i, j, Rj, dx, jt) in jumps:
                     if i != v: continue
-                    cy = tuple((np.asarray(c) + Rj) % n)
-                    if j == s and all(t == 0 for t in cy):
-                        # exchange: vacancy lands on the solute; new relative state is -PS
+                    cy = tuple(int(t) for t in (np.asarray(c) + Rj) % n)
+                    if j == s and cy == zero:
                         ky = kin.stateindex(-PS)
                         cls = om2.get((kx, ky))
                         if cls is None:
                             raise ValueError('exchange %s not classified by om2_jn' % (PS,))
-                        w = np.exp(-bFT2[cls] + bF[x])
-                        cneg = tuple((-np.asarray(c)) % n)
-                        y = sid(v, s, cneg)
+                        w = aT2[cls] / A[x]
+                        y = sid(v, s, tuple(int(t) for t in (-np.asarray(c)) % n))
                         ds, dv = PS.dx, -PS.dx
                     else:
                         y = sid(s, j, cy)
                         ky = kin.stateindex(PSof[y]) if kx is not None else None
                         cls = om1.get((kx, ky)) if (kx is not None and ky is not None) else None
                         if cls is not None:
-                            w = np.exp(-bFT1[cls] + bF[x])
+                            w = aT1[cls] / A[x]
                         else:
-                            w = np.exp(-bFT0[jt] + bFV[inv[v]])
-                        ds, dv = np.zeros(dim), dx
-                    r = P[x] * w
-                    rows.append(x); cols.append(y); vals.append(r); diag[x] -= r
-                    Bs[x] += r * ds; Bv[x] += r * dv
-                    Dss += 0.5 * r * np.outer(ds, ds); Dsv += 0.5 * r * np.outer(ds, dv); Dvv += 0.5 * r * np.outer(dv, dv)
+                            w = aT0[jt] / aV[inv[v]]
+                        ds, dv = zvec, dx
+                    trans.append((x, y, P[x] * w, ds, dv))
+    return dict(nst=nst, alive=alive, trans=trans, lone=lone, N=N, ncell=ncell, dim=dim)
+
+
+def lone_L0vv(ch):
+    N, dim = ch['N'], ch['dim']
+    L0 = np.zeros((dim, dim)); W0 = np.zeros((N, N)); B0 = np.zeros((N, dim))
+    for (i, j, r, dx) in ch['lone']:
+        r = float(r)
+        L0 += 0.5 * r * np.outer(dx, dx); W0[i, j] += r; W0[i, i] -= r; B0[i] += r * dx
+    eta0 = -np.dot(np.linalg.pinv(W0), B0)
+    return (L0 - np.dot(eta0.T, B0)) / N
+
+
+def solve_float(ch):
+    """(L0vv, Lss, Lsv, L1vv) of the chain in floats (sparse LU with one state pinned)."""
+    nst, alive, dim, N = ch['nst'], ch['alive'], ch['dim'], ch['N']
+    rows, cols, vals = [], [], []
+    diag = np.zeros(nst)
+    Bs = np.zeros((nst, dim)); Bv = np.zeros((nst, dim))
+    Dss = np.zeros((dim, dim)); Dsv = np.zeros((dim, dim)); Dvv = np.zeros((dim, dim))
+    for (x, y, r, ds, dv) in ch['trans']:
+        r = float(r)
+        rows.append(x); cols.append(y); vals.append(r); diag[x] -= r
+        Bs[x] += r * ds; Bv[x] += r * dv
+        Dss += 0.5 * r * np.outer(ds, ds); Dsv += 0.5 * r * np.outer(ds, dv); Dvv += 0.5 * r * np.outer(dv, dv)
     W = sp.coo_matrix((vals, (rows, cols)), shape=(nst, nst)).tocsr()
     asym = abs(W - W.T).max()
     if asym > 1e-9 * abs(W).max():
         raise ValueError('chain violates detailed balance: %g' % asym)
     W = W + sp.diags(diag)
-    keep = np.where(alive)[0][1:]      # pin one state (gauge); remove dead states
+    keep = np.where(alive)[0][1:]
     Wk = W[keep, :][:, keep].tocsc()
-    rhs = -np.hstack([Bs[keep], Bv[keep]])
-    sol = spla.splu(Wk).solve(rhs)
+    sol = spla.splu(Wk).solve(-np.hstack([Bs[keep], Bv[keep]]))
     eS = np.zeros((nst, dim)); eV = np.zeros((nst, dim))
     eS[keep] = sol[:, :dim]; eV[keep] = sol[:, dim:]
+    L0vv = lone_L0vv(ch)
     Lss = (Dss - eS.T @ Bs) / N
     Lsv = (Dsv - eS.T @ Bv) / N
     Lvv = (Dvv - eV.T @ Bv) / N
-    # the calculator's convention: cv counts all vacancies, the solute blocks one of the ncell*N sites
-    L1vv = Lvv - (ncell * N - 1) * L0vv
-    return L0vv, Lss, Lsv, L1vv
+    return L0vv, Lss, Lsv, Lvv - (ch['ncell'] * N - 1) * L0vv
+
+
+def chain_L(calc, betafree, n):
+    return solve_float(chain_transitions(calc, activities_from_betafree(betafree), n))
+
+
+def _lattice_trans(ch, crys):
+    """transitions with exact lattice-coordinate displacements, renumbered over alive states, ordered in
+    adjacent (transition, reverse) pairs (the cheap reversibility test of the Lean model)."""
+    from interstitial_common import snap
+    alive = np.where(ch['alive'])[0]
+    idx = {int(x): k for k, x in enumerate(alive)}
+    inv = crys.invlatt
+    ents = []
+    for (x, y, r, ds, dv) in ch['trans']:
+        dsl = tuple(snap(c) for c in np.dot(inv, ds)); dvl = tuple(snap(c) for c in np.dot(inv, dv))
+        ents.append((idx[x], idx[y], Fraction(r), dsl, dvl))
+    pool = {}
+    for k, e in enumerate(ents):
+        pool.setdefault((e[0], e[1], e[3], e[4]), []).append(k)
+    used, order = set(), []
+    for k, e in enumerate(ents):
+        if k in used: continue
+        used.add(k)
+        rk = (e[1], e[0], tuple(-c for c in e[3]), tuple(-c for c in e[4]))
+        cand = [m for m in pool.get(rk, []) if m not in used and ents[m][2] == e[2]]
+        order.append(k)
+        if cand:
+            used.add(cand[0]); order.append(cand[0])
+    return len(alive), [ents[k] for k in order]
+
+
+def exact_certificates(nst, ents, dim):
+    """Exact solutions of W xi = -B for the 2*dim displacement fields (state 0 of each component pinned),
+    by fraction Gauss-Jordan; returned as certificates only (the Lean model re-checks them)."""
+    W = [[Fraction(0)] * nst for _ in range(nst)]
+    Bm = [[Fraction(0)] * (2 * dim) for _ in range(nst)]
+    for (x, y, r, ds, dv) in ents:
+        W[x][y] += r; W[x][x] -= r
+        for a in range(dim):
+            Bm[x][a] += r * ds[a]; Bm[x][dim + a] += r * dv[a]
+    M = [W[i] + [-b for b in Bm[i]] for i in range(nst)]
+    ncol = nst + 2 * dim
+    piv_of_row, row = {}, 0
+    for col in range(nst):
+        p = next((r_ for r_ in range(row, nst) if M[r_][col] != 0), None)
+        if p is None: continue
+        M[row], M[p] = M[p], M[row]
+        pv = M[row][col]
+        M[row] = [v / pv for v in M[row]]
+        prow = M[row]
+        for r_ in range(nst):
+            if r_ != row:
+                f = M[r_][col]
+                if f != 0:
+                    M[r_] = [a - f * b for a, b in zip(M[r_], prow)]
+        piv_of_row[row] = col
+        row += 1
+        if row == nst: break
+    sols = [[Fraction(0)] * nst for _ in range(2 * dim)]
+    for r_, c in piv_of_row.items():
+        for t in range(2 * dim):
+            sols[t][c] = M[r_][nst + t]
+    return sols
+
+
+def lean_request(ch, crys, with_cert=True):
+    """Request line for Drive/Chain.lean (displacements in lattice coordinates, reverse pairs adjacent, optional
+    exact certificates so that the Lean side only has to check them)."""
+    from interstitial_common import fr
+    nst, ents = _lattice_trans(ch, crys)
+    body = ':'.join('%d,%d,%s,%s' % (x, y, fr(r), ','.join(fr(c) for c in ds + dv)) for (x, y, r, ds, dv) in ents)
+    line = '%d %d | %s' % (nst, ch['dim'], body)
+    if with_cert:
+        sols = exact_certificates(nst, ents, ch['dim'])
+        line += ' | ' + ';'.join(','.join(fr(v) for v in s_) for s_ in sols)
+    return line
+
+
+def lean_lone_request(ch, crys):
+    from interstitial_common import snap, fr
+    inv = crys.invlatt
+    ents = []
+    for (i, j, r, dx) in ch['lone']:
+        dl = [snap(c) for c in np.dot(inv, dx)]
+        ents.append('%d,%d,%s,%s' % (i, j, fr(r), ','.join(fr(c) for c in dl + dl)))
+    return '%d %d | %s' % (ch['N'], ch['dim'], ':'.join(ents))
+
+
+def parse_lean(ans, crys, dim):
+    """-> (ss, sv, vv) Cartesian float tensors (unnormalised sums) or None."""
+    if not ans.startswith('ok '): return None
+    L = crys.lattice
+    out = []
+    for part in ans[3:].split('|'):
+        T = np.array([float(Fraction(x)) for x in part.strip().split(',')]).reshape(dim, dim)
+        out.append(L @ T @ L.T)
+    return out
 
 
 def extrapolate(calc, betafree, sizes):
-    """Richardson extrapolation in 1/n^d from three sizes; returns (L tuple, crude error estimate tuple)."""
+    """Extrapolate n -> infinity from three sizes with L(n) = Linf + b/n^d + c/n^(d+2); the error estimate is the
+    larger of the difference to the two-point (1/n^d only) extrapolation from the two largest sizes and 5% of the
+    finite-size correction removed from the largest cell.
+    Returns (L tuple, error estimates, raw values)."""
     dim = calc.crys.dim
     vals = [chain_L(calc, betafree, n) for n in sizes]
+    A = np.array([[1.0, 1.0 / n ** dim, 1.0 / n ** (dim + 2)] for n in sizes])
+    Ainv = np.linalg.inv(A)
     out, err = [], []
+    x = [1.0 / n ** dim for n in sizes]
     for k in range(4):
         a, b, c = vals[0][k], vals[1][k], vals[2][k]
-        x = [1.0 / n ** dim for n in sizes]
-        # linear in 1/n^d through the last two points; error ~ difference to the fit through the first two
-        e1 = c + (c - b) * x[2] / (x[1] - x[2])
-        e0 = b + (b - a) * x[1] / (x[0] - x[1])
-        out.append(e1); err.append(np.abs(e1 - e0).max())
+        e3 = Ainv[0, 0] * a + Ainv[0, 1] * b + Ainv[0, 2] * c
+        e2 = c + (c - b) * x[2] / (x[1] - x[2])
+        # error estimate: the two extrapolations can cross by accident, so never trust less than 5% of the
+        # finite-size correction that was removed from the largest cell
+        out.append(e3); err.append(max(np.abs(e3 - e2).max(), 0.05 * np.abs(c - e3).max()))
     return tuple(out), tuple(err), vals
